@@ -4,7 +4,7 @@ SPEC = {
     'coq_dir': 'C10',
     'claimed': True,
     'theorems': ['C10_table_refines_map_refuted', 'C10_refuted_del_add', 'C10_refuted_del_replace',
-                 'C10_refuted_update_del', 'C10_refuted_sep_collision',
+                 'C10_update_del_fixed', 'C10_refuted_sep_collision',
                  'C10_table_refines_map_partial', 'C10_every_save_partial', 'C10_queries_partial'],
     'allowed_axioms': [],
     'shard': 30,
@@ -12,9 +12,9 @@ SPEC = {
             '(Prefix p, Name t, Primary Cointoken, Index [To, Note] over types.AssetsTransfer) on goleveldb (2/3) and memdb (1/3): '
             '4-6 primary keys, 1-4 saves, per window 1-6 operations on 3/4 of the keys, interleaved; new rows draw To from '
             '{a,b,ab,"",a1} and Note from {x,y,xy,""}; modifications change only the payload, one or both indexed fields, or nothing; '
-            '4% of Updates carry a mismatching primary key. Streams: 5 deterministic witnesses x 2 backends (the four findings + one safe '
-            'history); guarded (generator steers inside safe_words: nothing after the Del of a saved row, no Del of a saved row with a '
-            'pending index change); unrestricted (same alphabet, leaves the guard 40% of the times it could); sep-safe-words and '
+            '4% of Updates carry a mismatching primary key. Streams: 5 deterministic witnesses x 2 backends (the three open findings, the '
+            'repaired Update-then-Del history of C10-3, one more safe history); guarded (generator steers inside safe_words: nothing after '
+            'the Del of a saved row; Del of a saved row with a pending index change is inside the guard); unrestricted (same alphabet, leaves the guard 40% of the times it could); sep-safe-words and '
             'unrestricted-sep (primary keys / index values containing "-", steered towards the colliding pair). '
             'Observables: error class of every call; after every Save the full KV dump under the table prefix (values decoded with '
             'table.DecodeRow + types.Decode) and 9 ListIndex queries (primary, To, Note; full listings with and without prefix in both '
@@ -31,16 +31,18 @@ SPEC = {
                      'differential check only; Join tables, auto-increment primary keys and mergeCache are not modelled',
                      'Coq kernel + vm_compute (refutation witnesses, Examples, case evaluation)'],
     'assumptions': ['C10_table_refines_map_partial / C10_every_save_partial hold under the boolean guard safe_words: per primary key, after Del/DelRow of a '
-                    'row that was present at the last Save no further operation on that key until the next Save; no Del of a saved row whose pending '
-                    'Update/Replace changed an indexed field; indexed fields without the "-" byte. Everything else (Add, Add.Update*, Update*, Replace '
-                    'chains, Add.Del, Add.Del.Add, Update.Del with unchanged indexed fields, failing calls, any interleaving over keys, any number of '
-                    'saves) is inside the guard',
+                    'row that was present at the last Save no further operation on that key until the next Save; indexed fields without the "-" byte. '
+                    'Everything else (Add, Add.Update*, Update*, Replace chains, Add.Del, Add.Del.Add, Update.Del and Replace.Del of a saved row '
+                    'whatever the pending change, failing calls, any interleaving over keys, any number of saves) is inside the guard',
+                    'C10_update_del_fixed (finding C10-3 repaired in table.go Del) needs no history guard: Replace-free histories with "-"-free '
+                    'indexed fields whose calls answered like the map (the hypotheses that keep findings 4, 2 and 1 out) save exactly the map',
                     'C10_queries_partial covers full listings (no start key, count <= 0) as sets, for non-empty primary keys and separator-free '
                     'prefixes; order, pages and start keys are covered by the correspondence check only',
-                    'outside the guard the four open findings of known_findings/C10.json apply (each has a _refuted theorem with the witness the '
+                    'outside the guard the three open findings of known_findings/C10.json apply (each has a _refuted theorem with the witness the '
                     'harness reproduces on the Go code)'],
     'manifest': {'level_text': 'partial: unbounded refinement proof (table.go cache + Save = abstract map, exact KV contents, full listings) under the '
-                               'guard safe_words; the full statement is refuted by four defects reproduced on the Go code (open findings)',
+                               'guard safe_words; the full statement is refuted by three defects reproduced on the Go code (open findings C10-1, C10-2, '
+                               'C10-4); the fourth (C10-3, stale index entry after Update then Del) is repaired in table.go and proved absent',
                  'level_note': 'value encoding and the KV backend are abstract (ordered map); the model is tied to table.go/query.go by the '
                                'differential check over generated histories on goleveldb and memdb',
                  'technique': 'Coq proof (invariant by induction over op histories) + in-kernel correspondence check'},
